@@ -164,6 +164,21 @@ func (ex *Exec) callFunc(st *State, f *ssa.Function, args []*Val, binds []*Val, 
 	if nat, ok := natives[key]; ok {
 		return nat(ctx)
 	}
+	// contracts specialised by the static type inside an interface argument
+	for i, a := range args {
+		if a != nil && a.K == VScalar && a.BoxTy != nil && a.Box != nil {
+			skey := key + "[" + short(typeKey(a.BoxTy)) + "]"
+			if sfc := ex.eng.specs.Funcs[skey]; sfc != nil {
+				nargs := append([]*Val{}, args...)
+				b := *a.Box
+				b.Ty = a.BoxTy
+				nargs[i] = &b
+				ctx.key = skey
+				ctx.args = nargs
+				return ex.applyContract(ctx, sfc, nil)
+			}
+		}
+	}
 	fc := ex.eng.specs.Funcs[key]
 	inModule := f.Blocks != nil && strings.HasPrefix(pkgPathOf(f), modPath)
 	depth := 0
@@ -317,7 +332,7 @@ func (ex *Exec) havocReachable(st *State, a *Val) {
 			for _, l := range shapeLeaves(shapeOf(a.Elem), "") {
 				n := "E|" + short(typeKey(a.Elem)) + "|" + l.path
 				arr := st.get(n, SArr(SRef, SArr(SInt, l.sort)))
-				ex.set(st, n, Store(arr, a.Ref, Fresh("hvelems", SArr(SInt, l.sort))))
+				ex.setAt(st, n, Store(arr, a.Ref, Fresh("hvelems", SArr(SInt, l.sort))), a.Ref)
 			}
 		}
 	case VScalar:
@@ -701,7 +716,7 @@ func (ex *Exec) appendOp(ctx *callCtx) *Val {
 			j := BVar("j", SInt)
 			st.assume(Forall([]*Term{j}, Eq(Select(ne, j), Ite(Lt(j, s.Len), Select(oldE, j), Select(addE, Sub(j, s.Len))))))
 		}
-		ex.set(st, n, Store(arr, r, ne))
+		ex.setAt(st, n, Store(arr, r, ne), r)
 	}
 	return &Val{K: VSlice, Ref: r, Len: nl, Ty: s.Ty, Elem: el}
 }
